@@ -21,6 +21,7 @@ RULE = (
 ASSUMPTIONS = ["finite menus of malformed variants (listed in the evidence axes)", "single-threaded BLAS, so two executions of the same code on the same data are bit-identical", "OpenMDAO/NumPy trusted"]
 BOUND = {"quick": "2 problems x 4 operations each (70 schedules) x 3 model pairs", "thorough": "adds 3 problems x 2 operations (90 schedules) and more configurations"}
 
+PAIR_NAMES = ["aero_aero", "aero_as", "same_twice", "same_names_other_size", "left_vs_right", "as_left_vs_right"]
 BOGUS = ["twist", "Mesh", "symetry", "thickness", "sweep_cp", "taper_cp", "with_viscous_drag", "CDO", "k_Lam", "E_modulus", "span_cp", "fem_model"]
 
 
@@ -53,9 +54,12 @@ def states(tier, seed):
     for cfg in config_menu(tier):
         st.append(dict(part="valid", cfg=cfg, fam=fam))
     # ---- (e) interleavings
-    for pair in ("aero_aero", "aero_as", "same_twice"):
+    for pair in PAIR_NAMES:
         for sched in itertools.combinations(range(8), 4):
             st.append(dict(part="interleave", pair=pair, a_slots=list(sched), fam=fam))
+    # (e') every ordered pair of the configuration menu executed in a FRESH interpreter: B after A must equal B alone
+    for a_, b_ in itertools.permutations(range(len(FRESH_MENU)), 2):
+        st.append(dict(part="fresh", a=a_, b=b_, fam=fam))
     if tier == "thorough":
         # three problems, two operations each: all 90 interleavings
         for perm in sorted(set(itertools.permutations([0, 0, 1, 1, 2, 2]))):
@@ -242,26 +246,29 @@ def part_keys(s):
 def make_model(cfg, fam, mode="rev"):
     """returns (problem, user_arrays, of, wrt): user_arrays = every array the user put into the surface dictionaries"""
     if cfg["kind"] == "aero":
-        side = "left" if cfg["sym"] else "full"
+        side = cfg.get("side", "left") if cfg["sym"] else "full"
         surfs = []
         for i in range(cfg.get("ns", 1)):
-            m = gen.make_mesh(["twdi", "swept", "camber"][i], 2 if i != 2 else 3, (3 if cfg["sym"] else 5) if i == 0 else (2 if cfg["sym"] else 3), side, fam, asym=not cfg["sym"], offset=[4.5 * i, 0, 0.4 * i])
+            nx_, ny_ = (2 if i != 2 else 3), ((3 if cfg["sym"] else 5) if i == 0 else (2 if cfg["sym"] else 3))
+            if i == 0 and "size" in cfg:
+                nx_, ny_ = cfg["size"]
+            m = gen.make_mesh(["twdi", "swept", "camber"][i], nx_, ny_, side, fam, asym=not cfg["sym"], offset=[4.5 * i, 0, 0.4 * i])
             kw = dict(with_viscous=cfg["visc"], with_wave=cfg["wave"], twist_cp=np.array([1.0, 2.0, 0.5]), chord_cp=np.array([1.0, 1.1]), t_over_c_cp=np.array([0.12, 0.14]), CD0=0.01)
             if cfg["ground"]:
                 kw["groundplane"] = True
-            surfs.append(builders.aero_surface("s%d" % i, m, cfg["sym"], **kw))
+            surfs.append(builders.aero_surface(cfg.get("name", "s") + "%d" % i, m, cfg["sym"], **kw))
         fl = dict(v=200.0, alpha=3.0, rho=0.5, re=2e6, Mach_number=0.84 if cfg["wave"] else 0.5, cg=[0.5, 0.0, 0.1])
         if cfg["ground"]:
             fl["height_agl"] = 6.0
         p = builders.build_aero(surfs, fl, compressible=cfg["comp"], with_geom=True, mode=mode)
-        return p, surfs, ["ap.CL", "ap.CD", "ap.CM"], ["alpha", "s0.twist_cp"]
+        return p, surfs, ["ap.CL", "ap.CD", "ap.CM"], ["alpha", cfg.get("name", "s") + "0.twist_cp"]
     if cfg["kind"] == "as":
-        m = gen.make_mesh("twdi", 2, 3 if cfg["sym"] else 5, "left" if cfg["sym"] else "full", fam, asym=not cfg["sym"], span=10.0, chord=1.6)
+        m = gen.make_mesh("twdi", 2, cfg.get("ny", 3 if cfg["sym"] else 5), cfg.get("side", "left") if cfg["sym"] else "full", fam, asym=not cfg["sym"], span=10.0, chord=1.6)
         s = builders.struct_surface("wing", m, cfg["sym"], cfg["model"], struct_weight_relief=cfg["relief"], with_viscous=True, twist_cp=np.array([2.0, 3.0, 1.0]))
         p = builders.build_aerostruct([s], dict(Mach_number=0.5, W0=2.0e3, v=100.0, rho=0.9, alpha=4.0, speed_of_sound=200.0, R=2.0e6, load_factor=1.3), mode=mode)
         builders.tighten(p)
         return p, [s], ["AS_point_0.CL", "AS_point_0.fuelburn", "AS_point_0.wing_perf.failure"], ["alpha", "wing.twist_cp"]
-    m = gen.make_mesh("twdi", 2, 3 if cfg["sym"] else 5, "left" if cfg["sym"] else "full", fam, asym=not cfg["sym"], span=10.0, chord=1.6)
+    m = gen.make_mesh("twdi", 2, cfg.get("ny", 3 if cfg["sym"] else 5), cfg.get("side", "left") if cfg["sym"] else "full", fam, asym=not cfg["sym"], span=10.0, chord=1.6)
     s = builders.struct_surface("wing", m, cfg["sym"], cfg["model"], struct_weight_relief=True, twist_cp=np.array([2.0, 3.0, 1.0]))
     ny = m.shape[1]
     loads = np.concatenate([gen.gen((ny, 3), 3, -2e3, 4e3, fam), gen.gen((ny, 3), 4, -5e2, 5e2, fam)], axis=1)
@@ -344,6 +351,11 @@ PAIRS = {
     "aero_aero": (dict(kind="aero", sym=True, comp=False, ground=True, visc=True, wave=True, ns=2), dict(kind="aero", sym=False, comp=True, ground=False, visc=True, wave=False, ns=1)),
     "aero_as": (dict(kind="aero", sym=True, comp=False, ground=False, visc=True, wave=True, ns=1), dict(kind="as", model="tube", sym=True, relief=True)),
     "same_twice": (dict(kind="as", model="wingbox", sym=True, relief=True), dict(kind="as", model="wingbox", sym=True, relief=True)),
+    # same surface NAMES, different mesh sizes (a table keyed by surface name and shared between instances would be overwritten)
+    "same_names_other_size": (dict(kind="aero", sym=True, comp=False, ground=False, visc=True, wave=False, ns=1, name="wing", size=[2, 3]), dict(kind="aero", sym=True, comp=False, ground=False, visc=True, wave=False, ns=1, name="wing", size=[3, 5])),
+    # same size and names, opposite handedness (left half vs right half) and span type
+    "left_vs_right": (dict(kind="struct", model="tube", sym=True, side="left", ny=4), dict(kind="struct", model="tube", sym=True, side="right", ny=4)),
+    "as_left_vs_right": (dict(kind="as", model="tube", sym=True, relief=True, side="left", ny=3), dict(kind="as", model="tube", sym=True, relief=True, side="right", ny=3)),
 }
 
 
@@ -419,3 +431,47 @@ def part_interleave3(s):
     for k, (sc, c) in enumerate(zip(scripts, cfgs)):
         compare_obs(viol, "P%d" % k, sc.obs, isolated(c, s["fam"], ops + ["totals"]), dict(pair="three"))
     return dict(viol=viol, nontrivial=True, digest="sched3:%s" % "".join(map(str, s["order"])), transitions=9, validated=6)
+
+
+FRESH_MENU = [
+    dict(kind="struct", model="tube", sym=True, side="left", ny=4),
+    dict(kind="struct", model="tube", sym=True, side="right", ny=4),
+    dict(kind="struct", model="wingbox", sym=False, ny=5),
+    dict(kind="aero", sym=True, comp=False, ground=True, visc=True, wave=True, ns=1, name="wing", size=[2, 3]),
+    dict(kind="aero", sym=True, comp=True, ground=False, visc=True, wave=False, ns=1, name="wing", size=[3, 4], side="right"),
+    dict(kind="as", model="tube", sym=True, relief=True, side="left", ny=3),
+    dict(kind="as", model="tube", sym=True, relief=True, side="right", ny=3),
+]
+_FRESH = {}
+
+
+def fresh_digest(cfgs, fam):
+    import json
+    import os
+    import subprocess
+    import sys
+
+    key = (json.dumps(cfgs, sort_keys=True), fam)
+    if key not in _FRESH:
+        env = dict(os.environ)
+        r = subprocess.run([sys.executable, "-W", "ignore", "-m", "oasmc.pairjob", json.dumps(dict(cfgs=cfgs, fam=fam))], capture_output=True, text=True, env=env, cwd=os.getcwd())
+        line = [ln for ln in r.stdout.splitlines() if ln.startswith("DIGEST ")]
+        if r.returncode != 0 or not line:
+            _FRESH[key] = ("ERROR", (r.stderr or r.stdout)[-600:])
+        else:
+            _FRESH[key] = (line[0].split()[1], line[0].split(" ", 2)[2])
+    return _FRESH[key]
+
+
+def part_fresh(s):
+    A, B = FRESH_MENU[s["a"]], FRESH_MENU[s["b"]]
+    alone = fresh_digest([B], s["fam"])
+    after = fresh_digest([A, B], s["fam"])
+    viol = []
+    if alone[0] == "ERROR":
+        raise RuntimeError("fresh-process job failed for the single configuration %s: %s" % (B, alone[1]))
+    if after[0] == "ERROR":
+        viol.append(dict(sig=dict(oracle="fresh_process_pair", kind="exception", b=s["b"]), msg="configuration %d fails when built after configuration %d in a fresh process: %s" % (s["b"], s["a"], after[1][-200:]), measure=1.0))
+    elif after[0] != alone[0]:
+        viol.append(dict(sig=dict(oracle="fresh_process_pair", kind="different_results", b=s["b"]), msg="configuration %d gives different results when configuration %d was built before it in the same (fresh) process: magnitudes %s vs alone %s" % (s["b"], s["a"], after[1], alone[1]), measure=1.0))
+    return dict(viol=viol, nontrivial=True, digest="fresh:%d:%d:%s" % (s["a"], s["b"], after[0][:8]), transitions=6, validated=1)
